@@ -154,8 +154,10 @@ class Assembler:
         self.rewrites = []
         self.canaries = 0
         lines = self._with_includes(open(self.unit_path).read().split('\n'))
-        if self.drop_kf:
+        if True:
             lines = [l for l in lines if not any(re.search(r'//\s*KF:%s\b' % re.escape(k), l) for k in self.drop_kf)]
+            # `// KFOFF:<ID>` lines are the counterpart: present only while the finding is NOT listed open
+            lines = [l for l in lines if not any(m not in self.drop_kf for m in re.findall(r'//\s*KFOFF:(\w+)', l))]
         i = 0
         verb_start = None
         verb = []
